@@ -373,7 +373,7 @@ func (r *Runner) checkSubs(bi, si int, st *Step, subs map[int]<-chan client.GQLR
 				r.violate(bi, si, "subscription-leak", "after %s of document %d by requester %d (result %s) the subscription of requester %d delivered %v although nothing readable for it was committed", st.Op, st.D, st.A, st.Res, a, norm)
 				return false
 			}
-		case <-time.After(120 * time.Millisecond):
+		case <-time.After(60 * time.Millisecond):
 		}
 	}
 	return true
@@ -393,7 +393,7 @@ func outcome(err error, rows int) string {
 }
 
 // kindGroup spreads the request kinds over three consecutive steps (the listing is issued at every step)
-var kindGroup = map[string]int{"list": -1, "filter-indexed": 0, "order-limit": 1, "aggregate": 2, "group": 0, "showDeleted": 1, "version": 2,
+var kindGroup = map[string]int{"list": -1, "filter-indexed": 0, "order-limit": 1, "aggregate": 2, "group": 0, "showDeleted": -1, "version": 2,
 	"commits-all": 0, "docID": 1, "commits": 2, "latestCommits": 0, "cid-read": 1, "commits-cid": 2}
 
 func (r *Runner) q(n *cluster.Node, a int, kind, req string) (map[string]any, error, bool) {
